@@ -641,6 +641,17 @@ impl<'a> VariableParserExtension<'a> {
         identity: TypeId,
         type_params: &IndexMap<String, Option<TypeId>>,
     ) -> Result<HashMapVariable, ParsingError> {
+        // a map that never held an element has no root node
+        if let Ok(root) = val.assume_field_as_rust_enum("root")
+            && let Some(variant) = root.value
+            && variant.field_name.as_deref() == Some("None")
+        {
+            return Ok(HashMapVariable {
+                type_ident: val.r#type().to_owned(),
+                kv_items: vec![],
+            });
+        }
+
         let height = val.assume_field_as_scalar_number("height")?;
         let ptr = val.assume_field_as_pointer("pointer")?;
 
